@@ -3,7 +3,7 @@
 cd "$(dirname "$0")"
 ./setup.sh > /dev/null 2>&1 || { echo "setup failed"; exit 2; }
 for s in ${SEEDS:-1 2 3 4 5}; do
-  for p in ${PROPS:-C20 C03 C17 C18 C05 C15 C01 C06 C02}; do
+  for p in ${PROPS:-C20 C03 C17 C18 C13 C05 C08 C15 C01 C06 C02}; do
     out=$(VERIF_SEED=$s ./check $p --tier quick --no-evidence 2>&1)
     rc=$?
     echo "seed=$s $p exit=$rc $(echo "$out" | grep -E 'violation in|harness error' | head -1 | cut -c1-400)"
